@@ -175,6 +175,65 @@ fn u256_div2_exact() {
     assert!(eq5(&twice, &w(&a)));
 }
 
+// the same at the level of the field methods (body-agnostic: also decides a rewritten body that no longer calls the U256 routine)
+macro_rules! field_linear_exact {
+    ($h_add:ident, $h_sub:ident, $h_neg:ident, $h_dbl:ident, $F:path, $P:expr) => {
+        #[kani::proof]
+        #[kani::unwind(7)]
+        fn $h_add() {
+            let p = $P;
+            let (a, b) = (any_below(&p), any_below(&p));
+            let x = $F(U256::from(a)).add_inplace(&$F(U256::from(b)));
+            assert!(eq5(&w(&limbs(&x.0)), &wmod_once(&wadd(&w(&a), &w(&b)), &w(&p))));
+            let y = $F(U256::from(a)) + $F(U256::from(b));
+            assert!(eq4(&limbs(&y.0), &limbs(&x.0)));
+        }
+        #[kani::proof]
+        #[kani::unwind(7)]
+        fn $h_sub() {
+            let p = $P;
+            let (a, b) = (any_below(&p), any_below(&p));
+            let x = $F(U256::from(a)).sub_inplace(&$F(U256::from(b)));
+            let want = if wge(&w(&a), &w(&b)) { wsub(&w(&a), &w(&b)) } else { wsub(&wadd(&w(&a), &w(&p)), &w(&b)) };
+            assert!(eq5(&w(&limbs(&x.0)), &want));
+            let y = $F(U256::from(a)) - $F(U256::from(b));
+            assert!(eq4(&limbs(&y.0), &limbs(&x.0)));
+        }
+        #[kani::proof]
+        #[kani::unwind(7)]
+        fn $h_neg() {
+            let p = $P;
+            let a = any_below(&p);
+            let x = $F(U256::from(a)).neg_inplace();
+            let want = if eq4(&a, &[0u64; 4]) { w(&a) } else { wsub(&w(&p), &w(&a)) };
+            assert!(eq5(&w(&limbs(&x.0)), &want));
+            let y = -$F(U256::from(a));
+            assert!(eq4(&limbs(&y.0), &limbs(&x.0)));
+        }
+        #[kani::proof]
+        #[kani::unwind(7)]
+        fn $h_dbl() {
+            let p = $P;
+            let a = any_below(&p);
+            let x = $F(U256::from(a)).double();
+            assert!(eq5(&w(&limbs(&x.0)), &wmod_once(&wadd(&w(&a), &w(&a)), &w(&p))));
+            assert!($F(U256::from(a)).is_zero() == eq4(&a, &[0u64; 4]));
+        }
+    };
+}
+field_linear_exact!(fq_add_exact, fq_sub_exact, fq_neg_exact, fq_double_exact, IFq, FQ);
+field_linear_exact!(fr_add_exact, fr_sub_exact, fr_neg_exact, fr_double_exact, IFr, FR);
+
+#[kani::proof]
+#[kani::unwind(7)]
+fn fq_div2_exact() {
+    // Fq::div2: 2 * div2(a) == a (mod q), canonical
+    let a = any_below(&FQ);
+    let h = limbs(&IFq(U256::from(a)).div2().0);
+    assert!(wlt4(&h, &FQ));
+    assert!(eq5(&wmod_once(&wadd(&w(&h), &w(&h)), &w(&FQ)), &w(&a)));
+}
+
 #[kani::proof]
 #[kani::unwind(7)]
 fn u256_subtract_modulus_exact() {
